@@ -389,6 +389,10 @@ func (c *FnCtx) applyCallee(st *State, site ast.Node, key string, sig *types.Sig
 		c.assumptionsUsed["methods of repository interfaces without contract are pure observers of the receiver: "+shortFuncKey(key)] = true
 		return c.pureApp(st, key, sig, recv, args)
 	}
+	if !isRepo && recv != nil && recvT != nil && isPointer(recvT) && !(ct != nil && ct.NilRecv) {
+		// methods of library types are not called on nil pointers
+		c.nonNil(st, recv, site, "receiver of "+lastDot(key))
+	}
 	if ct == nil {
 		if isRepo {
 			// repository function without contract: results unconstrained, heap havocked
@@ -425,6 +429,23 @@ func (c *FnCtx) applyCallee(st *State, site ast.Node, key string, sig *types.Sig
 				env[p.Name] = args[i].withGo(sigParamType(sig, i))
 			}
 		}
+	}
+	for _, g := range ct.Ghosts {
+		// ghost parameters are bound by name in the caller's scope
+		var v *Term
+		if t, ok := c.env[g.Name]; ok {
+			v = t
+		} else {
+			sc := &specCtx{st: st, env: map[string]*Term{}}
+			if site != nil {
+				sc.site = site.Pos()
+			}
+			v = c.lookupLocal(sc, g.Name)
+		}
+		if v == nil {
+			c.unsupportedf(site, "ghost parameter %s of %s has no binding in the caller's scope", g.Name, shortFuncKey(key))
+		}
+		env[g.Name] = v
 	}
 	saveLets := c.letDefs
 	defer func() { c.letDefs = saveLets }()
@@ -527,6 +548,10 @@ func (c *FnCtx) freshOfType(st *State, hint string, t types.Type) *Term {
 
 // pureApp: library function as an uninterpreted function of (receiver, args).
 func (c *FnCtx) pureApp(st *State, key string, sig *types.Signature, recv *Term, args []*Term) []*Term {
+	// every AST node type implements Pos/End; one observer function for all static types
+	if strings.HasPrefix(key, "go/ast.") && recv != nil && len(args) == 0 && (strings.HasSuffix(key, ".Pos") || strings.HasSuffix(key, ".End")) {
+		key = "go/ast.Node." + lastDot(key)
+	}
 	var all []*Term
 	var sorts []string
 	if recv != nil {
